@@ -245,6 +245,19 @@ def gen_into(rng):
             f["attrs"].append(A(n, "empty"))
         elif c < 0.5:
             f["attrs"].append(A(n, *_convs(rng, 1)))
+    # a field carrying two or three attributes that `FieldAttribute::merge_attrs` combines component-wise
+    if rng.random() < 0.35:
+        f = it["fields"][0]
+        if not any(a["t"][0] == "kw" for a in f["attrs"]):
+            combo = [A(n, "empty")] if rng.random() < 0.5 else []
+            combo.append(A(n, *_convs(rng, 1, rng.random() < 0.7)))
+            if rng.random() < 0.5:
+                combo.append(A(n, *_convs(rng, 1, True)))
+            if nf - skipped > 1 and rng.random() < 0.5:
+                combo.append(A(n, "kw", rng.choice(["skip", "ignore"])))
+                skipped += 1
+            rng.shuffle(combo)
+            f["attrs"] = combo
     arity = nf - skipped
     c = rng.random()
     if c < 0.25:
@@ -295,11 +308,14 @@ def gen_try_from(rng):
     if rng.random() < 0.3:
         vs.append(variant("W", [fld("i32")]))
     it = enum(vs)
-    if rng.random() < 0.6:
+    c = rng.random()
+    if c < 0.4:
         it["attrs"].append(A("repr", "raw", "list", rng.choice(["u8", "i32", "u16", "C, u8", "usize"])))
+    elif c < 0.7:
+        it["attrs"].append(A("repr", "raw", "list", rng.choice(["C", "align(4)", "C, align(2)"])))
+        it["attrs"].append(A("repr", "raw", "list", rng.choice(["u8", "i64", "u16"])))
     it["attrs"].append(A("try_from", "repr"))
-    if rng.random() < 0.5:
-        it["attrs"].reverse()
+    rng.shuffle(it["attrs"])
     return it
 
 
@@ -420,8 +436,34 @@ def gen_display(rng, n):
     return it
 
 
+def gen_debug_combo(rng):
+    """Debug container: literal and one or two `bound(..)` attributes (merged field by field), shuffled"""
+    n = "debug"
+    tup = rng.random() < 0.5
+    it = struct([fld("T"), fld("i32")], tup, gen="<T>")
+    names = ["_0", "_1"] if tup else ["f0", "f1"]
+    attrs = [A(n, "bounds", rng.choice(["bound", "bounds"]), pick(rng, ["T: Copy", "T: Clone", "u8: Copy"], 1, 2), False)]
+    if rng.random() < 0.6:
+        attrs.append(A(n, "bounds", rng.choice(["bound", "bounds"]), pick(rng, ["Vec<T>: Clone", "T: Send"], 1, 1), False))
+    if rng.random() < 0.6:
+        attrs.append(A(n, "fmt", "{%s} {}" % names[0], [names[1]], False))
+    else:
+        for f in it["fields"]:
+            if rng.random() < 0.4:
+                f["attrs"].append(A(n, "kw", rng.choice(["skip", "ignore"])))
+    rng.shuffle(attrs)
+    it["attrs"] = attrs
+    if rng.random() < 0.3:
+        # the same on an enum: bounds on the enum, literals on the variants
+        vs = [variant("A", [fld("T")], True, attrs=[A(n, "fmt", "{_0}", [], False)]), variant("B")]
+        it = enum(vs, gen="<T>", attrs=[a for a in attrs if a["t"][0] == "bounds"])
+    return it
+
+
 def gen_debug(rng):
     n = "debug"
+    if rng.random() < 0.3:
+        return gen_debug_combo(rng)
     gen = "<T, U>" if rng.random() < 0.4 else ""
     tys = ["T", "U", "i32"] if gen else ["i32", "String", "u8"]
 
